@@ -1,0 +1,38 @@
+//go:build verif
+
+package remember
+
+// Contracts for /verif (contract-based deductive verification of the real
+// code). Comment-only: no code; visible only with the build tag "verif".
+//
+//@ func GenerateToken
+//@   property C07
+//@   -- the token is base64url(pid ";" nonce) with a 32 byte nonce, the stored value its sha512
+//@   ensures token_is_spec: result.2 == nil ==>
+//@       emits Rand.Read(?n) -> ?re :: re == nil && len(n) == 32 &&
+//@          result.1 == b64url(pid ++ ";" ++ n) && result.0 == b64std(sha512(pid ++ ";" ++ n))
+//@   ensures no_panic: !panics
+//@
+//@ func Authenticate
+//@   property C07 C01 C18
+//@   let rq = deref(req)
+//@   let raw = b64url_dec(cookie(rq, "rm"))
+//@   -- spec of the statement: the account a well-formed cookie (pid ";" 32-byte nonce)
+//@   -- belongs to is everything before the last 33 bytes - for every pid, including
+//@   -- pids that contain ';' themselves
+//@   ensures[C07] parsed_pid_is_issued_pid: each Store.UseRememberToken(?p, ?h) =>
+//@       h == b64std(sha512(raw)) &&
+//@       ((len(raw) >= 33 && substr(raw, len(raw) - 33, 1) == ";") ==> p == substr(raw, 0, len(raw) - 33))
+//@   ensures[C07,C01,C18] use_before_session: each Sess.Put("uid", ?v) =>
+//@       cookie_has(rq, "rm") &&
+//@       before Store.AddRememberToken(?p2, ?h2) -> ?ae :: ae == nil && p2 == v &&
+//@       before Store.UseRememberToken(?p, ?h) -> ?ue :: ue == nil && p == v && h == b64std(sha512(raw))
+//@   ensures[C07] rotate: each Sess.Put("uid", ?v) =>
+//@       (after Sess.Put("halfauth", "true")) && (after Cook.Del("rm")) &&
+//@       (after Cook.Put("rm", ?tok) :: before Store.AddRememberToken(?p2, ?h2) -> ?ae :: ae == nil && p2 == v && h2 == b64std(sha512(b64url_dec(tok))))
+//@   ensures[C07,C01] session_keys: each Sess.Put(?k, ?val) => k == "uid" || (k == "halfauth" && val == "true")
+//@   ensures[C07] bad_cookie_deleted: (cookie_has(rq, "rm") && result == nil && !emits Sess.Put("uid", _)) ==> emits Cook.Del("rm")
+//@   ensures[C07] new_cookie_only_on_success: each Cook.Put(_, _) => before Sess.Put("uid", _)
+//@   ensures[C18] no_panic: !panics
+//@   ensures[C18] storage_error_outcome: each Store.UseRememberToken(_, _) -> ?ue => (ue != nil && ue != ErrTokenNotFound) ==>
+//@       (result != nil && !emits Sess.Put(_, _) && !emits Cook.Put(_, _))
